@@ -41,3 +41,10 @@ func patchedRegion(index []tensor.Range, p tensor.Tensor) (region []tensor.Range
 
 	return region
 }
+
+// copiedIndex decouples the index kept by a backward rule from the caller's slice.
+func copiedIndex(index []tensor.Range) (c []tensor.Range) {
+	c = make([]tensor.Range, len(index))
+	copy(c, index)
+	return c
+}
